@@ -1,5 +1,5 @@
 import Bch.Tie.Locking
-import Bch.Tie.Gcs
+import Bch.Tie.GcsImmutable
 import Bch.Proofs.Locking
 import Bch.Props.C09
 /-
@@ -28,7 +28,7 @@ theorem wellBracketed_all :
 
 /-- gcs.Filter methods never write receiver state -/
 theorem C20_gcs_immutable : ∀ m ∈ Bch.Generated.gcsWrites, m.2 = 0 := by
-  have h := Bch.Tie.Gcs.tie_gcs_immutable
+  have h := Bch.Tie.GcsImmutable.tie_gcs_immutable
   simpa [List.all_eq_true] using h
 
 section Generic
